@@ -191,6 +191,10 @@ pub struct C16Case {
   /// how the source ends: 0 complete, 1 silent
   pub ending: u8,
   pub n: usize,
+  /// the same observable value is subscribed a second time after the first subscription was
+  /// ended; the script is played again
+  #[serde(default)]
+  pub second: bool,
   pub sched: SchedJson,
 }
 
@@ -206,8 +210,15 @@ fn c16_strategy(_ctx: &Ctx) -> BoxedStrategy<C16Case> {
     0u8..=1,
     1usize..=4,
     sched_strategy(),
+    prop::bool::weighted(0.3),
   )
-    .prop_map(|(kind, d, gaps, ending, n, sched)| C16Case { kind: kind.to_string(), d, gaps, ending, n, sched })
+    .prop_map(|(kind, d, gaps, ending, n, sched, second)| {
+      // (a second round needs a first one that leaves the hot source alive, and a subscribe
+      // call that returns: not the kinds that run inside subscribe or are unsubscribed by
+      // the script itself)
+      let second = second && !matches!(kind, "interval_unsub" | "interval_default" | "timer_default");
+      C16Case { kind: kind.to_string(), d, gaps, ending: if second { 1 } else { ending }, n, second, sched }
+    })
     .boxed()
 }
 
@@ -292,7 +303,22 @@ fn c16_build(c: &C16Case) -> Case {
     }
   };
   root.renumber();
-  Case { root, hots: vec![HotKind::Harness], hot_illformed: false, conn: None, conn_take: None, recorders: vec![vec![]], actions }
+  let mut recorders = vec![vec![]];
+  if c.second {
+    // The first subscription is cut off right after its last emission (whatever it has
+    // latched or armed by then must not reach the second one), its timers run out, then the
+    // whole script again for recorder 1 - only that second round is judged.
+    let round: Vec<Action> = actions[1..].to_vec();
+    if let Some(last_emit) = actions.iter().rposition(|a| matches!(a, Action::Emit(_, _))) {
+      actions.truncate(last_emit + 1);
+    }
+    actions.push(Action::Unsub(0));
+    actions.push(Action::Advance(c.d * 4));
+    actions.push(Action::Subscribe(1));
+    actions.extend(round);
+    recorders.push(vec![]);
+  }
+  Case { root, hots: vec![HotKind::Harness], hot_illformed: false, conn: None, conn_take: None, recorders, actions }
 }
 
 fn c16_check(_ctx: &Ctx, c: &C16Case) -> Report {
@@ -315,7 +341,25 @@ fn c16_check(_ctx: &Ctx, c: &C16Case) -> Report {
       return rep;
     }
   }
-  let got: Vec<(Rk, u64)> = r.log.recs[0].iter().map(|e| (e.k.clone(), e.vt / MS)).collect();
+  if !c.second {
+    let got: Vec<(Rk, u64)> = r.log.recs[0].iter().map(|e| (e.k.clone(), e.vt / MS)).collect();
+    c16_judge(c, got, &mut rep, &fail);
+    return rep;
+  }
+  // the same observable value subscribed a second time, after the first subscription was
+  // ended: the same timing, counted from the second subscribe
+  rep.classes.push("second-subscription".into());
+  let t0 = match r.log.sub_vt.get(1).copied().flatten() {
+    Some(t) => t / MS,
+    None => return rep,
+  };
+  let got1: Vec<(Rk, u64)> = r.log.recs[1].iter().map(|e| (e.k.clone(), (e.vt / MS).saturating_sub(t0))).collect();
+  let fail2 = |m: String| fail(format!("second subscription (at {} ms): {}", t0, m));
+  c16_judge(c, got1, &mut rep, &fail2);
+  rep
+}
+
+fn c16_judge(c: &C16Case, got: Vec<(Rk, u64)>, rep: &mut Report, fail: &dyn Fn(String) -> Option<String>) {
   let d = c.d;
   // emission instants of the hot script (the emitter is the driver thread)
   let mut times: Vec<u64> = Vec::new();
@@ -463,7 +507,7 @@ fn c16_check(_ctx: &Ctx, c: &C16Case) -> Report {
       let idx: Vec<i64> = got.iter().filter_map(|(k, _)| if let Rk::N(p) = k { Some(p.as_i64()) } else { None }).collect();
       if idx.iter().any(|i| *i < 0 || *i >= c.gaps.len() as i64) || idx.windows(2).any(|w| w[1] <= w[0]) {
         rep.fail = fail(format!("{}: delivered {:?}, not a strictly increasing selection of the source's items", c.kind, idx));
-        return rep;
+        return;
       }
       if c.kind == "sample" {
         // exact: at every tick the latest item not yet sampled
@@ -510,8 +554,7 @@ fn c16_check(_ctx: &Ctx, c: &C16Case) -> Report {
       }
     }
   }
-  rep
-}
+  }
 
 /// concurrent variant: the subscription is ended from another thread (or by the terminal)
 /// while the scheduler's worker is busy or just going idle
@@ -662,7 +705,7 @@ pub fn properties() -> Vec<Property> {
     },
     Property {
       id: "C16",
-      rule: "cases = kind in {interval.take(n), interval unsubscribed between ticks, timer, interval / timer on the default scheduler (run inside subscribe), delay, timeout, timeout with a slow subscriber, sample, debounce, time_interval} x period in {10, 25} ms x gap scripts from {3,7,9,11,15,40} ms (never equal to the period) x ending x generated schedule; oracle = (virtual time, event) pairs equal the timing definition (sample/debounce: strictly increasing selection of source items; sample exact when no tick coincides with an emission); non-trivial = >= 3 timed events; two_threads: delay(d) over one hot source or a merge of two, fed by two emitting threads with generated gaps - every item is handed on exactly d after it was emitted, also while another thread's item is being delayed",
+      rule: "cases = kind in {interval.take(n), interval unsubscribed between ticks, timer, interval / timer on the default scheduler (run inside subscribe), delay, timeout, timeout with a slow subscriber, sample, debounce, time_interval} x period in {10, 25} ms x gap scripts from {3,7,9,11,15,40} ms (never equal to the period) x ending x generated schedule, 30 % subscribed a second time after the first subscription was cut off right after its last emission (only the second round is judged, counted from its subscribe); oracle = (virtual time, event) pairs equal the timing definition (sample/debounce: strictly increasing selection of source items; sample exact when no tick coincides with an emission); non-trivial = >= 3 timed events; two_threads: delay(d) over one hot source or a merge of two, fed by two emitting threads with generated gaps - every item is handed on exactly d after it was emitted, also while another thread's item is being delayed",
       assumptions: vec!["virtual clock owned by the runtime (thread::sleep / Instant redirected)", "timeout arms its timer after the first item (as the statement words it)"],
       subs: vec![
         mk_sub("clock", (1000, 20_000), c16_strategy, c16_check),
